@@ -559,6 +559,7 @@ macro_rules! build_settings {
                     for c in &contents {
                         b.append(&c.s, ct(c));
                     }
+                    lock(&rec2).evs.push(Ev::BailEnd { idx });
                 },
             );
         }
